@@ -26,9 +26,12 @@ CHECKS = {
          "rule loops of spec.go reports no error exactly when every documented rule holds (unique operation ids, parameter name+location unique, "
          "path placeholders and path parameters in one-to-one correspondence and required, at most one body and never with formData, patterns "
          "compile, required properties defined incl. through additionalProperties, no overlapping paths, paths present without empty "
-         "placeholder, references resolve), with per-rule iff lemmas and shape theorems for the path-template scanner; the inheritance rules and "
-         "arrays-declare-items enter as the emptiness of their model. Tie: rule messages reported by Go = messages of the model, as sets, on "
-         "grammar documents with 0-2 edits from a 29-entry rule-breaking catalogue, and accepted <=> model reports nothing in both modes.",
+         "placeholder, references resolve, arrays declare items along every items chain, no definition is its own ancestor (the walk relation "
+         "Revisits: a followed reference is followed again on one way down; a diamond is not a cycle), no property name declared twice along "
+         "the ancestry), every rule stated declaratively, with per-rule iff lemmas and shape theorems for the path-template scanner; "
+         "decide-witnesses for the diamond, a cycle below the starting definition and a property inherited twice. Tie: rule messages reported by "
+         "Go = messages of the model, as sets, on grammar documents with 0-2 edits from a 41-entry catalogue (one per rule and variant, plus "
+         "entries that break no rule), and accepted <=> model reports nothing in both modes. Partial: nesting deeper than 64 levels is outside the model.",
          "Lean 4 proof (per-rule soundness and completeness of the loop models) + rule-message differential on grammar documents", "DESIGN.md §6 C03, §14"),
  "C07": ("Kernel-checked theorems: the default and example stages add no panic of their own for every view, visited-path configuration and "
          "oracle when the validators they call return normally (mutual induction over schemas; the nil result of a visited path is never "
